@@ -247,12 +247,32 @@ func (e *Exec) checkDurableNow(j int) {
 		}
 	}
 	e.pendingDurable = append(e.pendingDurable, durableCheck{img: img, j: j, round: e.events.persistRounds})
+	if !e.roundsNoSync() {
+		// with syncing enabled a round that reports success has made its
+		// batches durable: what the syncs so far guarantee after a power
+		// loss (nothing of the un-synced writes) must reopen to it, too
+		e.pendingDurable = append(e.pendingDurable, durableCheck{img: syncedImage(e.fs.Trace), j: j, round: e.events.persistRounds, synced: true})
+	}
+}
+
+// roundsNoSync: was any persistence round of this run allowed to skip its syncs?
+func (e *Exec) roundsNoSync() bool {
+	if e.c.Opts.NoSync || e.opts.NoSync {
+		return true
+	}
+	for _, op := range e.c.Prog {
+		if op.O != nil && op.O.NoSync {
+			return true
+		}
+	}
+	return false
 }
 
 type durableCheck struct {
-	img   *diskState
-	j     int
-	round int
+	img    *diskState
+	j      int
+	round  int
+	synced bool
 }
 
 // processDurable judges the directory images captured after successful rounds.
@@ -260,13 +280,17 @@ func (e *Exec) processDurable() {
 	for len(e.pendingDurable) > 0 {
 		dc := e.pendingDurable[0]
 		e.pendingDurable = e.pendingDurable[1:]
-		dir := fmt.Sprintf("%s-dur%d", e.fs.Dir, dc.round)
+		dir := fmt.Sprintf("%s-dur%d-%v", e.fs.Dir, dc.round, dc.synced)
 		if err := dc.img.materialise(dir); err != nil {
 			continue
 		}
 		e.out.Images++
 		v := e.imageVerdict(dir, dc.j, false, nil)
 		os.RemoveAll(dir)
+		if v != "" && dc.synced {
+			e.failD("success-not-durable", map[string]string{"symptom": vclass(v), "image": "synced-only"},
+				"persistence round %d reported success with prefix %d (syncing enabled), but what had been synced by that moment does not reopen to it after a power loss: %s", dc.round, dc.j, v)
+		}
 		if v != "" {
 			e.failD("success-not-durable", map[string]string{"symptom": vclass(v)},
 				"persistence round %d reported success with prefix %d, but the directory as written at that moment does not reopen to it: %s", dc.round, dc.j, v)
